@@ -5,7 +5,7 @@ T=$(readlink -f $1); shift
 D=$(mktemp -d /verif/run/tv.XXXX)
 { echo "SPECIFICATION Spec"; echo "CONSTANTS"; echo "  TraceFile = \"$T\""; echo "  CronPeriod <- TraceCronPeriod"; echo "  Expand <- TraceExpand"; echo "  Known = {${KNOWN:-}}"
   echo "CHECK_DEADLOCK FALSE"; echo "POSTCONDITION TraceAccepted"; echo "ALIAS Alias"; echo "INVARIANTS"; for i in "$@"; do echo "  $i"; done; } > $D/T.cfg
-cd /verif/spec && timeout 600 tlc -workers 1 -metadir $D/md -config $D/T.cfg ResonateTrace.tla > $D/out.txt 2>&1
+cd /verif/spec && timeout 600 tlc -noGenerateSpecTE -workers 1 -metadir $D/md -config $D/T.cfg ResonateTrace.tla > $D/out.txt 2>&1
 grep -E "is violated|Error:|TRACE NOT|No error|states generated" $D/out.txt | head
 L=$(grep -E "^/\\\\ l = " $D/out.txt | tail -1 | sed 's/.*= //')
 if [ -n "$L" ] && grep -q "is violated\|Error" $D/out.txt; then
